@@ -721,6 +721,8 @@ class IterFlow:
             return TOPV
         if isinstance(e, ast.Subscript):
             recv = self.ev(f, e.value, env, facts, rec, cn)
+            if recv == ("group",) and isinstance(e.slice, ast.Slice):
+                return ("group",)  # a slice of a level group (e.g. the reversed copy group[::-1]) holds nodes of that group only
             if isinstance(recv, Seq) and not isinstance(e.slice, ast.Slice):
                 return Node(recv.level, recv.checked, recv.admitted)
             return TOPV
@@ -777,9 +779,15 @@ class IterFlow:
         if not (isinstance(e.elt, ast.Name) and e.elt.id == var):
             return TOPV
         checked, filtered = src.checked, src.filtered
+        conds = []
         for c in g.ifs:
+            conds.extend(c.values if isinstance(c, ast.BoolOp) and isinstance(c.op, ast.And) else [c])
+        for c in conds:
             pol = True
             t = c
+            if isinstance(t, ast.Compare) and len(t.ops) == 1 and isinstance(t.ops[0], ast.IsNot) and isinstance(t.left, ast.Name) and t.left.id == var \
+                    and isinstance(t.comparators[0], ast.Constant) and t.comparators[0].value is None:
+                continue  # `x is not None`: placeholders in a duck-typed children sequence are dropped, no node is
             if isinstance(t, ast.UnaryOp) and isinstance(t.op, ast.Not):
                 pol, t = False, t.operand
             if isinstance(t, ast.Call) and len(t.args) == 1 and isinstance(t.args[0], ast.Name) and t.args[0].id == var:
